@@ -108,9 +108,9 @@ func TestC25(t *testing.T) {
 			combos = append(combos, combo{v, cs.ID, v == tls.VersionTLS13})
 		}
 	}
-	if !weak {
-		combos = append(combos, combo{tls.VersionTLS12, tls.OLD_TLS_ECDHE_RSA_WITH_CHACHA20_POLY1305_SHA256, true}, combo{tls.VersionTLS12, tls.OLD_TLS_ECDHE_ECDSA_WITH_CHACHA20_POLY1305_SHA256, true})
-	} else {
+	// the legacy ChaCha20 code points, in both processes: enabling the weak suites takes none away
+	combos = append(combos, combo{tls.VersionTLS12, tls.OLD_TLS_ECDHE_RSA_WITH_CHACHA20_POLY1305_SHA256, true}, combo{tls.VersionTLS12, tls.OLD_TLS_ECDHE_ECDSA_WITH_CHACHA20_POLY1305_SHA256, true})
+	if weak {
 		combos = append(combos, combo{tls.VersionTLS12, tls.DISABLED_TLS_RSA_WITH_AES_256_CBC_SHA256, true}, combo{tls.VersionTLS12, tls.DISABLED_TLS_ECDHE_ECDSA_WITH_AES_256_CBC_SHA384, true}, combo{tls.VersionTLS12, tls.DISABLED_TLS_ECDHE_RSA_WITH_AES_256_CBC_SHA384, true})
 	}
 	sizes := []int{0, 1, 2, 15, 16, 17, 16383, 16384, 16385, 32768}
